@@ -10,7 +10,7 @@ def _case(chk, i, rng, nmax=10):
     g = fac()
     obj, ovo = gemlib.obj_of(g)
     n = int(rng.integers(2, (8 if (obj in ("mmd", "ws") and ovo) else nmax) + 1))
-    K = int(rng.integers(2, 6))
+    K = int(rng.integers(2, 6)) if rng.integers(0, 8) else 1   # one case in eight has a single cluster
     mode = rng.choice(["soft", "mid", "sharp", "saturated", "onehot"])
     P = gemlib.gen_P(rng, n, K, mode)
     A, akind = None, "none"
@@ -112,6 +112,95 @@ def stream_bounds(chk, i, rng):
     chk.count(("bounds", label, n, K, mode, akind))
 
 
+def _variants(rng, M, integral):
+    """The same values in other representations: (label, array-like, relative tolerance)."""
+    out = [("fortran", np.asfortranarray(M), 1e-12), ("list", M.tolist(), 1e-12)]
+    big = np.zeros((2 * M.shape[0], 2 * M.shape[1])); big[::2, ::2] = M
+    out.append(("noncontiguous", big[::2, ::2], 1e-12))
+    ro = M.copy(); ro.setflags(write=False)
+    out.append(("readonly", ro, 1e-12))
+    out.append(("float32", M.astype(np.float32), 2e-5))
+    if integral:
+        out.append(("int64", M.astype(np.int64), 1e-12))
+        out.append(("int32", M.astype(np.int32), 1e-12))
+        if set(np.unique(M)) <= {0.0, 1.0}:
+            out.append(("bool", M.astype(bool), 1e-12))
+    return out
+
+
+def stream_repr(chk, i, rng):
+    """The same predictions / affinity presented as int / bool one-hot, float32 (exactly representable values), Fortran,
+    non-contiguous, read-only arrays or lists give the same score and gradient as the float64 C-contiguous reference,
+    through __call__ and through evaluate, and leave the caller's arrays unchanged."""
+    gl = gemlib.gemini_list()
+    label, fac = gl[i % len(gl)]
+    g = fac()
+    obj, ovo = gemlib.obj_of(g)
+    n = int(rng.integers(2, 9)); K = int(rng.integers(1, 5))
+    onehot = bool(rng.integers(0, 2))
+    if onehot:
+        P = np.eye(K)[rng.integers(0, K, size=n)]
+    else:   # dyadic rows: multiples of 1/16 summing to one (exact in float32)
+        P = np.zeros((n, K))
+        for r in range(n):
+            cuts = np.sort(rng.integers(0, 17, size=K - 1))
+            P[r] = np.diff(np.concatenate([[0], cuts, [16]])) / 16.0
+    A, aint = None, False
+    if obj in ("mmd", "ws"):
+        X = rng.integers(-3, 4, size=(n, 2)).astype(float)
+        if obj == "mmd":
+            A = X @ X.T; aint = True                       # integer-valued linear kernel
+        else:
+            A = np.abs(X[:, None, :] - X[None, :, :]).sum(-1); aint = True   # integer-valued manhattan distances
+    replay = {"gemini": label, "n": n, "K": K, "onehot": onehot, "P": P.tolist(), "A": None if A is None else A.tolist()}
+    try:
+        s0, g0 = g(P.copy(), None if A is None else A.copy(), return_grad=True)
+    except Exception as e:  # noqa
+        chk.fail(f"repr:reference-raises:{obj}", f"{label}: float64 reference call raises {type(e).__name__}: {e}", replay, layer="L3")
+        chk.count(None); return
+    s0 = float(np.asarray(s0)); g0 = np.asarray(g0, dtype=float)
+    pv = _variants(rng, P, onehot)
+    av = [("same", A, 1e-12)] if A is None else [("same", A, 1e-12)] + _variants(rng, A, aint)
+    which = [(a, b) for a in pv for b in av[:1]] + [(pv[int(rng.integers(0, len(pv)))], b) for b in av[1:]]
+    for (pl, Pv, pt), (al, Av, at) in which:
+        for route in ("call", "evaluate"):
+            Pb = np.array(Pv, copy=True) if isinstance(Pv, np.ndarray) else None
+            Ab = np.array(Av, copy=True) if isinstance(Av, np.ndarray) else None
+            try:
+                if route == "call":
+                    s1, g1 = g(Pv, Av, return_grad=True)
+                    s2 = g(Pv, Av)
+                else:
+                    if isinstance(Pv, list):
+                        continue   # evaluate() is the array-level method; lists go through __call__ only
+                    s1, g1 = g.evaluate(Pv, None if Av is None else np.asarray(Av), return_grad=True)
+                    s2 = g.evaluate(Pv, None if Av is None else np.asarray(Av), return_grad=False)
+            except Exception as e:  # noqa
+                if isinstance(Pv, list) or isinstance(Av, list):
+                    chk.dist[f"repr:list-rejected:{type(e).__name__}"] += 1   # lists are not a documented input type: observed only
+                    continue
+                chk.fail(f"repr:raises:{obj}:{pl}/{al}", f"{label} via {route}: P as {pl}, affinity as {al} raises {type(e).__name__}: {e} (the float64 call succeeds)", dict(replay, route=route), layer="L3")
+                continue
+            tol = max(pt, at)
+            s1 = float(np.asarray(s1)); s2 = float(np.asarray(s2)); g1 = np.asarray(g1, dtype=float)
+            sc = max(1.0, abs(s0))
+            # single precision: the MMD is the square root of a difference that may cancel to rounding level
+            sabs = 4 * np.sqrt(1.2e-7 * max(1.0, float(np.abs(A).max()))) if (obj == "mmd" and tol > 1e-9) else 0.0
+            if not (abs(s1 - s0) <= tol * sc + sabs and abs(s2 - s0) <= tol * sc + sabs):
+                chk.fail(f"repr:score:{obj}:{pl}/{al}", f"{label} via {route}: score {s1!r} / {s2!r} with P as {pl}, affinity as {al}; float64 reference {s0!r}", dict(replay, route=route), layer="L3")
+            gs = max(1.0, float(np.abs(g0).max()))
+            # TV is piecewise linear: with exactly representable rows many arguments of sign() are exact zeros in exact
+            # arithmetic and rounding-level noise in floating point, so its subgradient may differ between precisions;
+            # optimal-transport duals are not unique. Shapes are compared for all, values for the smooth objectives.
+            smooth = obj != "ws" and not (obj in ("tv", "mmd") and tol > 1e-9)
+            if g1.shape != g0.shape or (smooth and not np.allclose(g1, g0, rtol=0, atol=tol * gs * 10)):
+                chk.fail(f"repr:grad:{obj}:{pl}/{al}", f"{label} via {route}: gradient differs from the float64 reference with P as {pl}, affinity as {al}", dict(replay, route=route), layer="L3")
+            if (Pb is not None and not np.array_equal(Pb, Pv)) or (Ab is not None and not np.array_equal(Ab, Av)):
+                chk.fail(f"repr:argument-modified:{obj}", f"{label} via {route}: the caller's array was modified (P as {pl}, affinity as {al})", dict(replay, route=route), layer="L3")
+            chk.dist[f"repr:{pl}/{al}"] += 1
+    chk.count(("repr", label, n, K, onehot))
+
+
 def stream_largeperm(chk, i, rng):
     """Permutation invariance and score-alone = score-with-gradient on shapes far beyond the model's reach (n up to 1500,
     K up to 40, n*K*K up to 3e6): shape-dependent code paths (blocking, chunking, size thresholds) only show here."""
@@ -152,10 +241,10 @@ def stream_largeperm(chk, i, rng):
     chk.count(("largeperm", label, n, K))
 
 
-STREAMS = {"largeperm": (stream_largeperm, 60, 600), "perm": (stream_perm, 260, 4000), "empty": (stream_empty, 200, 3000), "bounds": (stream_bounds, 300, 4000)}
+STREAMS = {"repr": (stream_repr, 80, 800), "largeperm": (stream_largeperm, 60, 600), "perm": (stream_perm, 260, 4000), "empty": (stream_empty, 200, 3000), "bounds": (stream_bounds, 300, 4000)}
 
 if __name__ == "__main__":
     c01.main("C13", STREAMS,
-             rule="metamorphic streams on every registry name / class x flag: large shapes (n<=1500, K<=40) permutation + score-alone=score-with-gradient; consistent permutation of samples (with affinity) and clusters; appended empty cluster; "
+             rule="metamorphic streams on every registry name / class x flag: representations (int/bool one-hot, float32, Fortran, non-contiguous, read-only, list; via __call__ and evaluate; arguments unchanged); large shapes (n<=1500, K<=40) permutation + score-alone=score-with-gradient; consistent permutation of samples (with affinity) and clusters; appended empty cluster; "
                   "bounds (>=0, chi-square >= 1/2, TV/Hellinger <= 1, zero at sample-independent predictions, MI(balanced hard K-partition) = log K, finiteness on one-hot rows). "
-                  "n in 2..12, K in 2..5, soft..saturated..one-hot rows, PSD/indefinite kernels, several metrics. non-trivial = non-identity permutation / n>=2; distinct = (stream, gemini, n, K, mode, affinity)")
+                  "n in 2..12, K in 1..5, soft..saturated..one-hot rows, PSD/indefinite kernels, several metrics. non-trivial = non-identity permutation / n>=2; distinct = (stream, gemini, n, K, mode, affinity)")
